@@ -23,8 +23,10 @@ import vlib
 from gen import cachegen as CG
 
 ID = "C20"
-PROPS = ["IsoVerif/Props/C20.lean", "IsoVerif/Props/C20Sites.lean", "IsoVerif/Props/C20Stable.lean"]
-TARGETS = ["IsoVerif.Props.C20", "IsoVerif.Props.C20Sites", "IsoVerif.Props.C20Stable"]
+PROPS = ["IsoVerif/Props/C20.lean", "IsoVerif/Props/C20Sites.lean", "IsoVerif/Props/C20Stable.lean",
+         "IsoVerif/Props/C20Artefact.lean", "IsoVerif/Props/C20Reuse.lean"]
+TARGETS = ["IsoVerif.Props.C20", "IsoVerif.Props.C20Sites", "IsoVerif.Props.C20Stable", "IsoVerif.Props.C20Artefact",
+           "IsoVerif.Props.C20Reuse"]
 GEN_DEPS = ["CacheProtocol"]
 LEVEL = "proof"
 RULE = ("seeded random scenarios: 2-8 (thorough: 2-16) simultaneously starting runs with equal or different annotations, "
@@ -115,7 +117,7 @@ def run_real(sc, schedule=None, proto="fixed"):
         for f, text in sc.get("corrupt", {}).items():
             os.makedirs(cdir, exist_ok=True)
             with open(os.path.join(cdir, CS.CONFIG_NAMES[int(f)]), "w") as fh:
-                fh.write(text)
+                fh.write(text.replace("<S>", base))
         init_files = []
         for nme in CS.CONFIG_NAMES:
             p = os.path.join(cdir, nme)
@@ -157,9 +159,11 @@ def run_real(sc, schedule=None, proto="fixed"):
             history.append({"file": cl.get("file", 0), "key": nid(cl["key"]), "src": nid(cl["src"]),
                             "aux": [nid(a) for a in cl["aux"]], "target": nid(cl["target"]), "tag": cl["tag"],
                             "srcM0": sm, "srcM": sm, "auxM": am, "tgtM": tm})
-        real = CS.run_scenario(home, cfgs, sc["schedule"] if schedule is None else schedule, clock)
+        real = CS.run_scenario(home, cfgs, sc["schedule"] if schedule is None else schedule, clock,
+                               late=sc.get("late", ()), hold_build=bool(sc.get("hold_build")))
         real["init_files"] = init_files
         real["base"] = base
+        real["warm_targets"] = {cl["target"]: tm for cl, _, _, tm in wconvs}       # version of every artefact of the history
         real["outs"] = [os.path.abspath(c["output"]) for c in cfgs]
         # the version (mtime) every artefact a run took has at the END of all runs (None = the file is gone)
         real["final_mtime"] = {}
@@ -224,12 +228,62 @@ def compare(ctx, sc, real, model):
     return diffs
 
 
+def artefact_request(real):
+    """the database files of a `hold_build` scenario as seen by Model/Artefact.lean: (request for the driver op
+    C20.artefact, what every `use` step of the real runs found, in order).  Programs: per run its realised sequence of
+    conversions (`build`, ATOMIC - the model describes the repaired gtf2db - image = two records naming the version) and
+    re-openings (`use`); schedule: the realised steps (`build` = the first step of the model's build, `produce` = the
+    remaining three: two chunks and the os.replace)."""
+    paths = []
+
+    def pid_of(path):
+        if path not in paths:
+            paths.append(path)
+        return paths.index(path)
+    n = len(real["outcomes"])
+    progs = [[] for _ in range(n)]
+    dbconvs = {q: [cv for cv in real["convs"] if cv["pid"] == q and cv["kind"] == "db"] for q in range(n)}
+    used = {q: 0 for q in range(n)}
+    expected = []
+    for (q, what, path, extra) in real["events"]:
+        if what == "publish":
+            cv = dbconvs[q][used[q]]
+            used[q] += 1
+            c = int(cv["tgt_mtime"])
+            progs[q].append({"op": "build", "p": pid_of(path), "atomic": True, "chunks": [[c], [c]]})
+        elif what == "use":
+            progs[q].append({"op": "use", "p": pid_of(path)})
+            if extra.startswith("complete:"):
+                m = int(float(extra.rsplit("@", 1)[1]))
+                expected.append([pid_of(path), [m, m]])
+            else:
+                expected.append([pid_of(path), None if extra == "absent" else "partial"])
+    files = [[pid_of(t), [int(m), int(m)]] for t, m in sorted(real.get("warm_targets", {}).items()) if t.endswith(".db")]
+    sched = []
+    for (q, label, f) in real["trace_full"]:
+        if f == 0 and label == "build":
+            sched.append(q)
+        elif f == 0 and label == "produce":
+            sched += [q, q, q]
+        elif label == "use":
+            sched.append(q)
+    return {"files": files, "procs": progs, "sched": sched}, expected
+
+
 def check_property(sc, real):
     """the property itself on what the real code did; returns list of (kind, detail)"""
     fails = []
+    cnt = real.setdefault("counters", {})
     for pid, o in enumerate(real["outcomes"]):
         if not o or not o["ok"]:
             fails.append(("run_crashed", "run %d: %s" % (pid, o)))
+    # the run re-opens the database it took: it must never find it missing or half built (audit2 C20-G2)
+    for (pid, what, path, seen) in real.get("events", []):
+        if what == "use":
+            cnt["artefact_uses"] = cnt.get("artefact_uses", 0) + 1
+            if seen in ("partial", "absent"):
+                fails.append(("partial_artefact_observed", "run %d re-opened the database %s it had taken and found it %s "
+                              "(another run was rebuilding it in place)" % (pid, path, seen)))
     full = set(t for (_, _, t) in real["stores"] if t is not None) | set(t for t in real["init_files"] if t is not None)
     for pid, f, seen in real["loads"]:
         if seen is not None and seen not in full:
@@ -248,12 +302,19 @@ def check_property(sc, real):
     # version (path @ mtime) the run took
     for pid, (o, d) in enumerate(zip(real["outcomes"], real["descs"])):
         if not o or not o["ok"]:
+            # the artefacts of a crashed run are not judged (the crash itself is the failure `run_crashed` when the run
+            # completes alone: confirmed_failures) - counted in the evidence
+            cnt["crashed_runs_artefacts_not_checked"] = cnt.get("crashed_runs_artefacts_not_checked", 0) + 1
             continue
         clients = ([d["db"]] if d["db"] else []) + d["stores"]
         took = [t for t in real.get("taken", []) if t[0] == pid]
         for ci, ((kind, path), c) in enumerate(zip(o["results"], clients)):
             pv = real["provenance"].get(path)
             tk = took[ci] if ci < len(took) and took[ci][2] == os.path.abspath(path) else None
+            if tk is None:
+                # no record of the version taken: the stability of this result cannot be judged - counted in the evidence
+                cnt["results_without_taken_record"] = cnt.get("results_without_taken_record", 0) + 1
+            cnt["results_checked"] = cnt.get("results_checked", 0) + 1
             cls = shared_target_class(real, pid, c, tk)
             facts = {"pid": pid, "client": ci, "kind": kind, "artefact": _strip(real, path), "hit": bool(tk and tk[4]),
                      "overwritten_by": cls}
@@ -284,8 +345,22 @@ def check_property(sc, real):
                 # the file was replaced after the run took it, by a conversion of the same input (same key, flag, source mtime)
                 if cls and cls["by"] == pid:
                     note = "self_overwrite"             # a run writing its own artefact again is not interference
+                elif cls and cls["concurrent"] and cls["in_its_folder"] and kind != "db":
+                    # index / BED / BAM: the producers are stand-ins that write the file in one step (what the real minimap2 /
+                    # db2bed do inside the file is not observed here): same exposure as the listed finding, counted
+                    note = "rebuilt_in_place_same_input"
+                elif cls and cls["concurrent"] and cls["in_its_folder"] and not cls.get("built_in_place"):
+                    # the owner of the folder converted the same input again and MOVED the complete file into place: what the
+                    # reader holds open and what it opens later are complete conversions of its own input
+                    note = "replaced_atomically_same_input"
                 elif cls and cls["concurrent"] and cls["in_its_folder"]:
-                    note = "rebuilt_in_place_same_input"  # exposure of the same finding, the artefact still corresponds
+                    # audit2 C20-G2: ... and rebuilt it IN the file the reader holds from the cache (removed it, filled the new
+                    # one over the time of a conversion): the reader opens a missing / half-built database
+                    fails.append(("rebuilt_in_place_same_input",
+                                  {"text": "run %d took %s from the cache (mtime %s); the concurrently running run %d converted the same "
+                                           "input again directly into that file (removed, then rebuilt in place)"
+                                           % (pid, path, tk[3], cls["by"]), "facts": facts}))
+                    continue
                 else:
                     note = None
                 if note is None:
@@ -323,6 +398,7 @@ def shared_target_class(real, pid, client, tk):
         if cv["target"] == path and cv["tgt_mtime"] == m_end:
             q = cv["pid"]
             return {"by": q, "concurrent": True, "key": cv["key"],
+                    "built_in_place": cv.get("built_at") in (None, path) and cv["kind"] == "db",
                     "other_input": (cv["key"], _norm_tag(cv["tag"])) != (client["key"], _norm_tag(client["tag"])),
                     "separate_folders": real["outs"][q] != real["outs"][pid],
                     "in_its_folder": os.path.dirname(path) == real["outs"][q]}
@@ -393,14 +469,16 @@ def codec_laws(ctx, real, req, model):
     for t, mo in zip(probes, outs):
         try:
             pv = json.loads(t)
-            py_ok = isinstance(pv, dict) and all(isinstance(v, dict) for v in pv.values())
+            py_ok = isinstance(pv, dict)
+            if py_ok:       # load_config keeps the entries that are dicts
+                pv = {k: v for k, v in pv.items() if isinstance(v, dict)}
         except ValueError:
             py_ok = False
         if isinstance(mo, dict) and "driver_error" in mo:
             bad.append(("driver_error", t[:60], mo))
         elif py_ok != (mo is not None):
             bad.append(("parse verdict", t[:80], mo))
-        elif py_ok and json.loads(mo) != json.loads(t):
+        elif py_ok and json.loads(mo) != pv:
             bad.append(("parse value", t[:80], mo))
         ctx.count("codec_probe:" + ("doc" if py_ok else "not_a_doc"))
     return bad
@@ -410,11 +488,19 @@ def correspondence(ctx):
     quick = ctx.tier == "quick"
     n_sc = 260 if quick else 2000
     max_n = 8 if quick else 16
-    scenarios = CG.witness_scenarios() + CG.stable_scenarios() + \
+    scenarios = CG.witness_scenarios() + CG.stable_scenarios() + CG.late_start_scenarios() + CG.rebuild_scenarios() + \
         [CG.rand_scenario(ctx.rng, max_n=max_n, rich=True) for _ in range(n_sc)]
     for sc in scenarios:
         if "name" not in sc and CG.reuse_finished_folder(sc):
             ctx.count("generator:running_run_takes_finished_folder")
+        # (a dict entry that lacks fields is kept verbatim by the code and cannot be represented by the model's Entry:
+        # that variant is searched by the oracle only)
+        if "name" not in sc and CG.malformed_entries(sc, allow_partial_dict=False):
+            ctx.count("generator:malformed_entry_under_looked_up_key")
+        if sc.get("late"):
+            ctx.count("generator:late_start")
+        if sc.get("hold_build"):
+            ctx.count("generator:rebuild_with_build_and_use_steps")
     ctx.extra["scenario_generator"] = {"random": n_sc, "max_processes": max_n, "witness_schedules": 2,
                                        "shared_target_scenarios": len(CG.stable_scenarios())}
     batch = []
@@ -425,11 +511,29 @@ def correspondence(ctx):
             continue
         batch.append((sc, real, req))
     outs = ctx.driver.run([vlib.req("C20.run", **req) for (_, _, req) in batch])
+    # Model/Artefact.lean against the database files of the scenarios that have the two phases of a conversion and the
+    # re-openings as steps
+    abatch = [(sc, real) + artefact_request(real) for (sc, real, _) in batch if sc.get("hold_build")]
+    aouts = ctx.driver.run([vlib.req("C20.artefact", **areq) for (_, _, areq, _) in abatch])
+    for (sc, real, areq, expected), amodel in zip(abatch, aouts):
+        if isinstance(amodel, dict) and "driver_error" in amodel:
+            ctx.disagree("artefact", sc, amodel, None)
+            continue
+        ctx.count("artefact_model:scenarios")
+        ctx.count("artefact_model:uses_compared", len(expected))
+        ctx.count("artefact_model:builds", sum(1 for pr in areq["procs"] for i in pr if i["op"] == "build"))
+        if amodel["obs"] != expected or any(amodel["left"]):
+            ctx.disagree("artefact", sc, amodel, {"found_by_the_real_runs": expected})
+        elif any(i["op"] == "build" for pr in areq["procs"] for i in pr) and expected:
+            ctx.count("artefact_model:nontrivial")
     laws_checked = 0
     for (sc, real, req), model in zip(batch, outs):
         ctx.evaluations += 1
         ctx.count("procs:%d" % sc["n"])
-        ctx.count("init:" + ("warm" if sc["warm"] else "corrupt" if sc["corrupt"] else "fresh"))
+        ctx.count("init:" + ("warm" if sc["warm"] else "malformed_entry" if sc.get("malformed") else
+                             "corrupt" if sc["corrupt"] else "fresh"))
+        if real.get("reused_by_name"):
+            ctx.count("index_reference_returned_a_file_found_by_name", len(real["reused_by_name"]))
         if isinstance(model, dict) and "driver_error" in model:
             ctx.disagree("run", sc, model, None)
             continue
@@ -484,10 +588,20 @@ def oracle_inprocess(ctx, scenarios):
         found = confirmed_failures(sc, real)
         for note in real.get("stability_notes", []):
             ctx.count("oracle:" + note)
+        for k, v in real.get("counters", {}).items():
+            ctx.count("oracle:" + k, v)
+        if real.get("reused_by_name"):
+            ctx.count("oracle:index_reference_returned_a_file_found_by_name", len(real["reused_by_name"]))
         for kind, detail in found:
             if kind not in seen:
                 seen.add(kind)
                 small = sc
+                if kind != KIND_SHARED and ctx.hist.get("oracle_failure:" + kind, 0) >= 3:
+                    # three concrete inputs of one kind are recorded, the rest is counted (so that the other kinds stay visible
+                    # within the budget of recorded failures)
+                    ctx.count("oracle_failure:" + kind)
+                    ctx.count("oracle_failure_counted_only:" + kind)
+                    continue
                 if kind == KIND_SHARED and ctx.hist.get("oracle_failure:" + kind, 0) >= 8 and isinstance(detail, dict) and \
                         static_class(sc, detail["facts"]):
                     # the listed class, observed often with the generator option: recorded a few times, counted always
@@ -572,9 +686,19 @@ def confirmed_failures(sc, real):
     for kind, detail in check_property(sc, real):
         if kind == "run_crashed":
             pid = int(detail.split()[1].rstrip(":"))
-            solo = dict(sc, n=1, runs=[sc["runs"][pid]], schedule=[])
+            solo = dict(sc, n=1, runs=[sc["runs"][pid]], schedule=[], late=[])
             r2, _ = run_real(solo)
             if "warm_failed" in r2 or not (r2["outcomes"][0] and r2["outcomes"][0]["ok"]):
+                real.setdefault("counters", {})["crash_also_alone_not_counted"] = \
+                    real["counters"].get("crash_also_alone_not_counted", 0) + 1
+                if sc.get("malformed"):
+                    # audit2 C20-G5: the file is a JSON dict, one ENTRY is malformed: the run must treat the entry as absent
+                    # (tolerant reading), i.e. do what it does alone on an empty cache directory
+                    r3, _ = run_real(dict(solo, corrupt={}, malformed=None))
+                    if "warm_failed" not in r3 and r3["outcomes"][0] and r3["outcomes"][0]["ok"]:
+                        res.append(("malformed_entry_crash", "%s; the config file is a JSON dict whose entry under the looked-up "
+                                    "key is malformed (%s: %s); on an empty cache directory the run completes"
+                                    % (detail, sc["malformed"], list(sc["corrupt"].values())[0])))
                 continue
         res.append((kind, detail))
     return res
@@ -620,7 +744,7 @@ def witness_on_prefix_tree(ctx):
                 "    for sc in CG.witness_scenarios() + [CG.rand_scenario(ctx.rng, 6, True) for _ in range(%d)]:\n"
                 "        if any(t.strip() in ('[]', 'null') for t in sc['corrupt'].values()): continue  # a non-dict document: the pre-fix code fails one step later (AttributeError in the lookup), the model at the load\n"
                 "        real, req = P.run_real(sc, proto='orig')\n"
-                "        if req is None: continue\n"
+                "        if req is None or real.get('reused_by_name') or sc.get('malformed'): continue\n"
                 "        model = ctx.driver.run([vlib.req('C20.run', **req)])[0]\n"
                 "        n += 1\n"
                 "        d = P.compare(ctx, sc, real, model) if 'driver_error' not in model else [['driver', model, None]]\n"
@@ -712,18 +836,46 @@ class PipelineEnv:
         shutil.copytree(os.path.join(vlib.REPO, "src"), os.path.join(self.repo, "src"),
                         ignore=shutil.ignore_patterns("__pycache__"))
 
-    def args_for(self, ann, complete):
-        a = ["--threads", "1", "--bam", self.paths["bam"], "--reference", self.paths["ref"], "--data_type", "nanopore",
+    def args_for(self, ann, complete, ref=None):
+        a = ["--threads", "1", "--bam", self.paths["bam"], "--reference", ref or self.paths["ref"], "--data_type", "nanopore",
              "-p", "S", "--no_gzip", "--genedb", self.ann[ann]]
         return a + (["--complete_genedb"] if complete else [])
 
-    def baseline(self, ann, complete):
-        key = (self.same_content.get(ann, ann), complete)
+    def fresh_reference(self, kind, folder):
+        """a reference nobody has indexed yet, in a folder of its own (audit2 C20-G1: the index next to the reference is
+        shared by every run that uses this reference, and the first uses build it).
+        `fresh_bgzf`  = the toy BGZF file without .fai / .gzi (pyfaidx rebuilds the .fai whenever the .gzi is missing, so a
+                        held writer is repaired by the next one: used free-running, thorough tier);
+        `fresh_plain` = the toy sequence + 60 short decoy contigs, not compressed, no .fai;
+        `plain_gzip`  = the toy sequence + 60 short decoy contigs, compressed with plain gzip (pyfaidx refuses it: every run
+                        unpacks a private copy into its output folder)"""
+        os.makedirs(folder, exist_ok=True)
+        if kind == "fresh_bgzf":
+            dst = os.path.join(folder, os.path.basename(self.paths["ref"]))
+            shutil.copy(self.paths["ref"], dst)
+            return dst
+        import gzip
+        fn = "refplain.fa.gz" if kind == "plain_gzip" else "refplain.fa"      # `fresh_plain`: the same, not compressed
+        src = os.path.join(self.base, "data", "plain", fn)
+        if not os.path.exists(src):
+            os.makedirs(os.path.dirname(src), exist_ok=True)
+            with gzip.open(self.paths["ref"], "rb") as fi, \
+                    (gzip.open(src, "wb", compresslevel=1) if kind == "plain_gzip" else open(src, "wb")) as fo:
+                shutil.copyfileobj(fi, fo)
+                for k in range(60):
+                    fo.write((">decoy_%04d\n" % k).encode() + (b"ACGTTGCAAG" * 6 + b"\n") * 4)
+        dst = os.path.join(folder, fn)
+        shutil.copy(src, dst)
+        return dst
+
+    def baseline(self, ann, complete, refkind=None):
+        key = (self.same_content.get(ann, ann), complete) + ((refkind,) if refkind else ())
         ann = key[0]
         if key not in self.solo:
-            d = os.path.join(self.base, "solo_%d_%d" % (ann, int(complete)))
+            d = os.path.join(self.base, "solo_%d_%d%s" % (ann, int(complete), "_" + refkind if refkind else ""))
             os.makedirs(d)
-            rc, log = self.PL.run_isoquant(os.path.join(d, "out"), self.args_for(ann, complete), home=os.path.join(d, "home"),
+            ref = self.fresh_reference(refkind, os.path.join(d, "ref")) if refkind else None
+            rc, log = self.PL.run_isoquant(os.path.join(d, "out"), self.args_for(ann, complete, ref), home=os.path.join(d, "home"),
                                            wrapper=os.path.join(self.repo, "isoquant.py"))
             self.solo[key] = _outputs(self.PL, os.path.join(d, "out"), "S") if rc == 0 else ("failed", rc, log[-400:])
         return self.solo[key]
@@ -740,8 +892,9 @@ def run_pipeline_case(case, keep=None, env=None):
     fails = []
     try:
         n = len(case["anns"])
+        refkind = case.get("ref")
         for i in range(n):
-            b = env.baseline(case["anns"][i], case["complete"][i])
+            b = env.baseline(case["anns"][i], case["complete"][i], refkind)
             if isinstance(b, tuple):
                 return [("infrastructure", "solo run failed rc=%s: %s" % (b[1], b[2]))]
         env.k += 1
@@ -755,10 +908,12 @@ def run_pipeline_case(case, keep=None, env=None):
         procs = []
         outs = case.get("outs") or ["run%d" % i for i in range(n)]
         # history: earlier runs under the same HOME that have FINISHED before the simultaneous ones start
+        # audit2 C20-G1: the concurrent runs of such a case are the FIRST users of their reference (no .fai / .gzi yet)
+        ref = env.fresh_reference(refkind, os.path.join(base, "ref")) if refkind else None
         for h in case.get("history", []):
             od = os.path.join(base, h["out"], "out")
             os.makedirs(os.path.dirname(od), exist_ok=True)
-            rc, log = PL.run_isoquant(od, env.args_for(h["ann"], h["complete"]), home=home,
+            rc, log = PL.run_isoquant(od, env.args_for(h["ann"], h["complete"], ref), home=home,
                                       wrapper=os.path.join(env.repo, "isoquant.py"))
             if rc != 0:
                 shutil.rmtree(base, ignore_errors=True)
@@ -774,16 +929,26 @@ def run_pipeline_case(case, keep=None, env=None):
             os.makedirs(os.path.dirname(od), exist_ok=True)
             e = dict(os.environ, HOME=home, PYTHONHASHSEED="0", ABLAB_ISOQUANT_VERIF="1", VERIF_REPO=env.repo,
                      VERIF_C20_SCHED_DIR=sdir, VERIF_C20_PID=str(i), VERIF_C20_N=str(n),
-                     VERIF_C20_HOLD_USE="1" if case.get("hold_use") else "0")
+                     VERIF_C20_HOLD_USE="1" if case.get("hold_use") else "0",
+                     VERIF_C20_HOLD_FAI="1" if case.get("hold_fai") else "0",
+                     VERIF_C20_HOLD_DB="1" if case.get("hold_db") else "0",
+                     VERIF_C20_START_BARRIER="1" if case.get("start_barrier") else "0")
+            hold = case.get("hold")
+            if hold and hold["pid"] == i:      # this process stays at barrier `at` until process `for` has exited
+                e.update(VERIF_C20_HOLD_AT=hold["at"], VERIF_C20_HOLD_FOR=str(hold["for"]))
             entry = [WRAPPER] if case.get("sched") is not None else [os.path.join(env.repo, "isoquant.py")]
-            extra_args = []
+            extra_args = list((case.get("extra_args") or [[]] * n)[i])
+            if case.get("stagger") and i:
+                time.sleep(case["stagger"])
             if case.get("genedb_output"):
                 # one scratch folder for converted annotations shared by all runs (docs/cmd.md: --genedb_output); with the
                 # pinned code the option is parsed but the database still goes to the run's own output folder
+                # (the folder is NOT created beforehand - audit2 C20-G6: the runs that start together create it themselves;
+                # the wrapper puts a barrier at the os.path.exists / os.makedirs of this path)
                 gdb = os.path.join(base, "shared_genedb_output")
-                os.makedirs(gdb, exist_ok=True)
-                extra_args = ["--genedb_output", gdb]
-            procs.append((od, subprocess.Popen([vlib.PY] + entry + ["--output", od] + env.args_for(case["anns"][i], case["complete"][i]) + extra_args,
+                e["VERIF_C20_GDB"] = gdb
+                extra_args += ["--genedb_output", gdb]
+            procs.append((od, subprocess.Popen([vlib.PY] + entry + ["--output", od] + env.args_for(case["anns"][i], case["complete"][i], ref) + extra_args,
                                                env=e, stdout=subprocess.PIPE, stderr=subprocess.STDOUT, text=True,
                                                cwd=os.path.dirname(od))))
         for i, (od, p) in enumerate(procs):
@@ -797,7 +962,7 @@ def run_pipeline_case(case, keep=None, env=None):
                 fails.append(("run_crashed", "process %d of %d rc=%s: %s" % (i, n, p.returncode, " | ".join(tail)[-400:])))
                 continue
             got = _outputs(PL, od, "S")
-            want = env.baseline(case["anns"][i], case["complete"][i])
+            want = env.baseline(case["anns"][i], case["complete"][i], refkind)
             if got != want:
                 bad = sorted(k for k in set(got) | set(want) if got.get(k) != want.get(k))
                 text = "process %d: files %s differ from the solo run" % (i, bad[:5])
@@ -829,9 +994,17 @@ def run_pipeline_case(case, keep=None, env=None):
                     ok = False
                 if not ok:
                     fails.append(("config_left_corrupted", "%s ends as %r" % (nme, txt[:80])))
-        if keep is not None and os.path.exists(os.path.join(sdir, "trace.txt")):
+        if os.path.exists(os.path.join(sdir, "trace.txt")):
             with open(os.path.join(sdir, "trace.txt")) as f:
-                keep["trace"] = f.read().split("\n")
+                tr = f.read().split("\n")
+            if keep is not None:
+                keep["trace"] = tr
+            # a barrier that gave up / a hold that timed out: the schedule of the case was NOT enforced
+            lost = [l for l in tr if l.endswith("GAVEUP") or l.endswith("HOLDTIMEOUT")]
+            if keep is not None:
+                keep["token_given_up"] = len(lost)
+            if lost:
+                fails.append(("infrastructure", "step token given up / hold timed out: %s" % lost[:3]))
         shutil.rmtree(base, ignore_errors=True)
         return fails
     finally:
@@ -870,12 +1043,39 @@ def pipeline_cases(ctx):
         # lookup (cache hit on X/<name>.db) and is held before it goes on to use the database; A' (-o X again, a same-named
         # OTHER annotation) runs its whole cache phase (the conversion rewrites X/<name>.db); then B goes on
         {"anns": [0, 2], "complete": [True, True], "outs": ["Y", "X"], "history": [{"ann": 0, "complete": True, "out": "X"}],
+         "extra_args": [[], ["--force"]],      # --force only skips the 10-second "press Ctrl+C" countdown of a re-used folder
          "hold_use": True, "sched": [0] * 6 + [1] * 8 + [0], "name": "shared_target_overwrite"},
+        # audit2 C20-G2: the owner of a finished run's folder repeats his command with --force --clean_start (SAME annotation)
+        # while another run holds a cache hit on that folder's database: B (-o Y) performs its lookup (hit on X/<name>.db);
+        # C (-o X --force --clean_start) is held INSIDE the real gffutils.create_db (records inserted, relations / indices
+        # not yet built) until B has exited
+        {"anns": [0, 0], "complete": [True, True], "outs": ["Y", "X"], "history": [{"ann": 0, "complete": True, "out": "X"}],
+         "extra_args": [[], ["--force", "--clean_start"]], "hold_use": True, "hold_db": True,
+         "hold": {"pid": 1, "at": "dbMid", "for": 0},
+         "sched": [[0, "use", "arrive"], [1, "dbMid", "arrive"], 0], "name": "same_input_rebuild_midway"},
+        # audit2 C20-G1 (a): two first users of a reference that has no index yet: run 0 is held between the open(..,'w') of
+        # the index it builds and the close that fills it, for the whole life of run 1
+        {"anns": [0, 0], "complete": [True, True], "ref": "fresh_plain", "hold_fai": True,
+         "hold": {"pid": 0, "at": "faiWrite", "for": 1},
+         "sched": [[0, "faiWrite", "arrive"]], "name": "first_use_of_unindexed_reference"},
+        # audit2 C20-G1 (b): plain-gzip multi-contig reference (every run unpacks a private copy): run 0 has loaded its
+        # reference; run 1 is held between open(..,'w') and close of the index of ITS copy while run 0's workers re-open
+        # the index for every sequence
+        {"anns": [0, 0], "complete": [True, True], "ref": "plain_gzip", "hold_fai": True,
+         "hold": {"pid": 1, "at": "faiWrite", "for": 0},
+         "sched": [[0, "refLoaded", "arrive"], [1, "faiWrite", "arrive"], 0], "name": "plain_gzip_reference_shared_index"},
+        # seed C20_b2, deterministic: run 1 STARTS (everything before its first cache step included) while run 0 stands
+        # between mkstemp and os.replace of a store
+        {"anns": [0, 1], "complete": [True, True], "start_barrier": True,
+         "sched": [[0, "start"], [0, "replace", "arrive"], [1, "start"], [1, "lookup"], 0],
+         "name": "start_during_a_store"},
         # two runs with separate output folders, one shared --genedb_output folder and two DIFFERENT annotations of the same file
         # name: run 0 converts and is held before it uses its database, run 1 converts, run 0 goes on (a change that makes
         # --genedb_output the target of the conversion lets run 1 overwrite run 0's database: seeded change C20_b3)
+        # (audit2 C20-G6: nobody created the folder: both runs test for it, then both create it)
         {"anns": [0, 2], "complete": [True, True], "genedb_output": True, "hold_use": True,
-         "sched": [0] * 12 + [1] * 9 + [0] * 2, "name": "shared_genedb_output_folder"},
+         "sched": [[0, "gdbExists"], [1, "gdbExists"], [0, "use", "arrive"], [1, "use"], 0],
+         "name": "shared_genedb_output_folder"},
         # both runs reach their store in the fixed protocol, then alternate
         {"anns": [0, 1], "complete": [True, True], "sched": [0] * 11 + [1] * 7 + [0, 1, 1, 0], "name": "overlapping_stores"},
         # free-running simultaneous start, equal and different annotations
@@ -887,6 +1087,10 @@ def pipeline_cases(ctx):
                       "sched": CG.rand_schedule(rng, n, 14 * n), "name": "random_token_schedule"})
     if not quick:
         cases.append({"anns": [i % 2 for i in range(16)], "complete": [True] * 16, "sched": None, "name": "simultaneous_start_16"})
+        cases.append({"anns": [0] * 6, "complete": [True] * 6, "ref": "plain_gzip", "stagger": 0.7, "sched": None,
+                      "name": "staggered_start_plain_gzip_reference"})
+        cases.append({"anns": [0, 1] * 6, "complete": [True] * 12, "ref": "fresh_bgzf", "sched": None,
+                      "name": "simultaneous_first_use_12"})
     return cases
 
 
@@ -896,7 +1100,7 @@ def oracle(ctx, disagreements, broken):
     seeds = [d["input"] for d in disagreements if d["op"] == "run" and isinstance(d["input"], dict) and "runs" in d["input"]]
     n = oracle_inprocess(ctx, seeds[:40])
     # 2. the witnesses of the pre-fix protocol on the current tree (must pass), then the normal generator
-    scs = CG.witness_scenarios() + CG.stable_scenarios()
+    scs = CG.witness_scenarios() + CG.stable_scenarios() + CG.late_start_scenarios() + CG.rebuild_scenarios()
     extra = 300 if quick else 2400
     if broken:
         extra *= 2
@@ -904,6 +1108,8 @@ def oracle(ctx, disagreements, broken):
     for sc in scs:
         if "name" not in sc and CG.reuse_finished_folder(sc):
             ctx.count("oracle_generator:running_run_takes_finished_folder")
+        if "name" not in sc and CG.malformed_entries(sc, allow_partial_dict=True):
+            ctx.count("oracle_generator:malformed_entry_under_looked_up_key:" + sc["malformed"])
     n += oracle_inprocess(ctx, scs)
     ctx.extra["oracle_inprocess_scenarios"] = n
     if not any(f["kind"] not in ("infrastructure", KIND_SHARED) for f in ctx.failures):
@@ -913,8 +1119,10 @@ def oracle(ctx, disagreements, broken):
     ran = 0
     env = PipelineEnv()
     for case in pipeline_cases(ctx):
-        if [f for f in ctx.failures if f["kind"] != KIND_SHARED] and ran >= 3:
-            break
+        if [f for f in ctx.failures if f["kind"] != KIND_SHARED] and ran >= 3 and \
+                case["name"] in ("random_token_schedule", "simultaneous_start", "simultaneous_start_16", "overlapping_stores",
+                                 "staggered_start_plain_gzip_reference", "simultaneous_first_use_12"):
+            continue        # failures are already on record: only the deterministic named cases are still run
         keep = {}
         try:
             fl = run_pipeline_case(case, keep, env)
@@ -935,6 +1143,7 @@ def oracle(ctx, disagreements, broken):
                 ctx.fail(kind, inp, detail)
                 ctx.count("oracle_failure:pipeline:" + kind)
         ctx.count("pipeline_case:" + case["name"])
+        ctx.count("pipeline:step_token_given_up_or_hold_timed_out", keep.get("token_given_up", 0))
     env.close()
     ctx.extra["oracle_pipeline"] = {"cases": ran, "wall_s": round(time.time() - t0, 1)}
 
